@@ -117,8 +117,12 @@ where
         }
 
         if needs_update(&self.reactivity) {
+            #[cfg(leptos_verif)]
+            crate::verif_hooks::yield_point("memo:before-take");
             // No deadlock risk, because we only hold the value lock.
             let value = self.value.write().or_poisoned().take();
+            #[cfg(leptos_verif)]
+            crate::verif_hooks::yield_point("memo:taken");
 
             /// codegen optimisation:
             fn inner_1(
@@ -137,8 +141,12 @@ where
                 })
             });
 
+            #[cfg(leptos_verif)]
+            crate::verif_hooks::yield_point("memo:before-reactivity");
             // Two locks are aquired, so order matters.
             let reactivity_lock = self.reactivity.write().or_poisoned();
+            #[cfg(leptos_verif)]
+            crate::verif_hooks::yield_point("memo:reactivity-held");
             {
                 // Safety: Can block endlessly if the user is has a ReadGuard on the value
                 let mut value_lock = self.value.write().or_poisoned();
@@ -168,6 +176,8 @@ where
                 }
             }
             inner_2(changed, reactivity_lock);
+            #[cfg(leptos_verif)]
+            crate::verif_hooks::yield_point("memo:released");
 
             changed
         } else {
